@@ -7,6 +7,9 @@ import datetime as _dt
 import struct
 
 NOVALUE = object()   # "raises ValueError / reported as None by the bulk read"
+# Group references carry '_either': True when the day byte has bit 7 set (other than 0xFF) or the month word has
+# bits above Dec: the documented encoding does not cover these patterns, so both "no value" and a decoded group
+# are accepted for them.
 
 DAY_NAMES = ["Sun", "Mon", "Tue", "Wed", "Thu", "Fri", "Sat"]
 MONTH_NAMES = ["Jan", "Feb", "Mar", "Apr", "May", "Jun", "Jul", "Aug", "Sep", "Oct", "Nov", "Dec"]
@@ -84,7 +87,7 @@ def decode_eco_v1(b: bytes):
     if on_off not in (0, -1):
         return NOVALUE
     return dict(start_h=sh, start_m=sm, end_h=eh, end_m=em, power=power, on_off=on_off, day_bits=days,
-                days=days_text(days))
+                days=days_text(days), _either=(days < -1))
 
 
 def decode_schedule(b: bytes):
@@ -107,7 +110,8 @@ def decode_schedule(b: bytes):
     if not 0 <= soc <= 100:
         return NOVALUE
     return dict(start_h=sh, start_m=sm, end_h=eh, end_m=em, on_off=on_off, day_bits=days, days=days_text(days),
-                power=power, soc=soc, month_bits=months, months=months_text(months), schedule_type=st)
+                power=power, soc=soc, month_bits=months, months=months_text(months), schedule_type=st,
+                _either=(days < -1 or months >= 0x1000))
 
 
 def power_percent(st: int, raw: int):
@@ -224,6 +228,8 @@ def group_matches(obj, ref: dict) -> list[str]:
     """Compare an EcoModeV1/Schedule object returned by goodwe with the reference field dict."""
     bad = []
     for k, v in ref.items():
+        if k == '_either':
+            continue
         if k == 'schedule_type':
             got = getattr(obj, 'schedule_type', None)
             if got is not None and int(got) != v:
